@@ -310,7 +310,11 @@ impl Property for C13 {
                             9 => { let mut y = x.clone(); y.skew_around_point_mut(s1, s2.clamp(-80.0, 80.0), o); (Some(ske(s1, s2.clamp(-80.0, 80.0), o)), crate::conv::IntoGeom::into_geom(x.skew_around_point(s1, s2.clamp(-80.0, 80.0), o)), crate::conv::IntoGeom::into_geom(y)) }
                             10 => {
                                 // affine_transform with an explicit matrix vs apply() on every coordinate
-                                let t = AffineTransform::new(p2, s1 / 32.0, origin.0, -s1 / 64.0, p2 + 1.0, origin.1);
+                                // each linear entry independently zero / unit / generic: triangular, diagonal, shear-only and
+                                // full matrices all occur
+                                let h = crate::engine::splitmix64(p1.to_bits() ^ p2.to_bits().rotate_left(17) ^ origin.0.to_bits().rotate_left(31));
+                                let pickv = |sel: u64, generic: f64| match sel & 3 { 0 => 0.0, 1 => 1.0, 2 => -1.0, _ => generic };
+                                let t = AffineTransform::new(pickv(h, p2), pickv(h >> 2, s1 / 32.0), origin.0, pickv(h >> 4, -s1 / 64.0), pickv(h >> 6, p2 + 1.0), origin.1);
                                 let mut y = x.clone(); y.affine_transform_mut(&t);
                                 (Some(Box::new(move |p: Coord<f64>| t.apply(p))), crate::conv::IntoGeom::into_geom(x.affine_transform(&t)), crate::conv::IntoGeom::into_geom(y))
                             }
